@@ -1452,8 +1452,10 @@ private:
                 val = binary::big_to_native<uint64_t>(buf, sizeof(buf));
                 break;
             }
-            default:
-                break;
+            default: // additional information 28-30 is reserved, 31 has no argument
+                ec = cbor_errc::unknown_type;
+                more_ = false;
+                return 0;
         }
         return val;
     }
@@ -1537,6 +1539,10 @@ private:
                             val = static_cast<int64_t>(-1)- static_cast<int64_t>(x);
                             break;
                         }
+                    default: // additional information 28-30 is reserved, 31 has no argument
+                        ec = cbor_errc::unknown_type;
+                        more_ = false;
+                        return 0;
                 }
                 break;
 
